@@ -186,6 +186,12 @@ def fire(cfg, w, seed, history, ev, tracks, pre: StatePre):
     # accepted -----------------------------------------------------------
     tag = branch_tag(out.action)
     res["tag"] = tag
+    if ev[0].startswith("p_"):
+        # primitive action: object-route inverse probe only; never a BFS successor
+        res["status"] = "prim"
+        if "C01" in props:
+            _object_route_probe(tracks, pre, out.action, add, tag)
+        return res
     if "C20" in props:
         exp_payload = None
         if ev[0] == "add_node":
@@ -225,6 +231,27 @@ def fire(cfg, w, seed, history, ev, tracks, pre: StatePre):
     if cfg.undo_probe:
         _undo_probe(cfg, tracks, pre, add, tag, ev, set(post_bad))
     return res
+
+
+def _object_route_probe(tracks, pre, action, add, tag):
+    """a.inverse() -> pre ; .inverse() -> post ; .inverse() -> pre (object route)"""
+    post_obs = canon.observe(tracks)
+    cur = action
+    for i, expect in enumerate((pre.obs, post_obs, pre.obs)):
+        phase = f"inverse{i + 1}"
+        try:
+            cur = events.with_watchdog(cur.inverse)
+        except events.Hang:
+            add("C01", "inverse-hangs", "inverse() did not terminate", phase, tag)
+            return
+        except Exception as e:  # noqa: BLE001
+            add("C01", "inverse-raises", f"inverse() raised {type(e).__name__}: {e}", phase, tag)
+            return
+        obs = canon.observe(tracks)
+        if obs != expect:
+            add("C01", "inverse-does-not-restore" if i != 1 else "double-inverse-does-not-reproduce",
+                "; ".join(canon.diff(expect, obs)), phase, tag)
+            return
 
 
 def _undo_probe(cfg, tracks, pre, add, tag, ev, post_bad=frozenset()):
@@ -291,6 +318,8 @@ def expand(task):
             for clause, detail in lst[:3]:
                 vio.append(mk_violation(p, clause, detail, w, seed, [], ("construct",), "construct", "constructor", pre.info))
     evs = events.enabled_events(tracks, w, cfg.kinds)
+    if "primitive" in cfg.kinds:
+        evs = evs + events.primitive_events(tracks, w)
     fresh = True
     for ev in evs:
         if not fresh:
